@@ -12,8 +12,8 @@ from .. import uscan
 
 
 def run(ctx):
-    from .configtime import no_state_outside_objects as _no_state
-    _no_state(ctx, 'C14.R3', classes=('Unit', 'Substance', 'Container'))
+    from .configtime import derived_values as _derived
+    _derived(ctx, 'C14.R3', ('Unit', 'Substance', 'Container'))
     from .configtime import cached_arrays_not_updated_in_place as _cached_arrays
     _cached_arrays(ctx, 'C14.R4', ('Container.create_solution', 'Container.create_solution_from'))
     from .configtime import quantities_parsed_by_unit_only as _one_grammar
